@@ -475,3 +475,314 @@ def is_integral(ex, v):
     if isinstance(v, Sym):
         return v.ty == "int"
     return ops.is_intlike(v) and not isinstance(v, bool)
+
+
+# ----------------------------------------------------------------------------- file output (C17)
+
+
+def _same_path(ex, a, b):
+    return ops.equals(ex, a.fields["str"], b.fields["str"])
+
+
+@spec
+def io_nothing(ex):
+    """no file operation happened"""
+    return len(ex.p.ghost.get("io", [])) == 0
+
+
+@spec
+def io_saved_to(ex, path):
+    """the only file operations were: delete `path` if present, open it for writing (text mode 'w', newline
+    '\\r\\n', encoding latin_1), one write, close - in this order"""
+    log = ex.p.ghost.get("io", [])
+    if len(log) != 4:
+        return False
+    (k0, *a0), (k1, *a1), (k2, *a2), (k3, *a3) = log
+    if (k0, k1, k2, k3) != ("unlink", "open", "write", "close"):
+        return False
+    p = path if (hasattr(path, "cls") and path.cls == "Path") else lib.make_path(ex, path)
+    f = a1[0]
+    ok = a0[1] is True and f.mode == "w" and f.newline == "\r\n" and f.encoding in ("latin_1", "latin-1", "latin1", "iso-8859-1")
+    if not ok or a2[0] is not f or a3[0] is not f:
+        return False
+    fp = f.path if (hasattr(f.path, "cls") and f.path.cls == "Path") else lib.make_path(ex, f.path)
+    return ops.and_(ex, _same_path(ex, a0[0], p), _same_path(ex, fp, p))
+
+
+@spec
+def io_text(ex):
+    """the text handed to write()"""
+    for ev in ex.p.ghost.get("io", []):
+        if ev[0] == "write":
+            return ev[2]
+    raise Unsupported("io_text(): nothing was written")
+
+
+@spec
+def join_lines(ex, wl_records):
+    """the records joined by a single line feed (no trailing line break)"""
+    return lib.str_method(ex, "\n", "join", [wl_records], {})
+
+
+@spec
+def path_name_lower(ex, p):
+    """lower-cased final component of a path"""
+    pp = p if (hasattr(p, "cls") and getattr(p, "cls", None) == "Path") else lib.make_path(ex, p)
+    return Sym(lib.STRLOWER(lib.PATHNAME(term(pp.fields["str"]))), "str")
+
+
+@spec
+def ends_with(ex, s, suffix):
+    return mk_bool(z3.SuffixOf(term(suffix), term(s)))
+
+
+# ----------------------------------------------------------------------------- labware bookkeeping (C02 / C04 / C11)
+
+
+class ContribV:
+    """sum over the first k (well, volume) pairs of volume * [well addresses real well (r, c)]"""
+
+    def __init__(self, at):
+        self.at = at  # (r, c) -> value
+
+
+def _real_index(ex, L, w):
+    m = L.fields["_indices"]
+    ex.pure += 1
+    try:
+        return ops.map_get(ex, m, w)
+    finally:
+        ex.pure -= 1
+
+
+@spec
+def real_index(ex, L, w):
+    """(row, column) of the real well that well id w addresses in labware L"""
+    return _real_index(ex, L, w)
+
+
+@spec
+def known_well(ex, L, w):
+    """w is a well id of labware L"""
+    return ops.map_has(ex, L.fields["_indices"], ops.to_abstract(w))
+
+
+def _hit(ex, L, w, r, c):
+    idx = _real_index(ex, L, w).concrete_items()
+    return z3.And(term(idx[0], "int") == term(r, "int"), term(idx[1], "int") == term(c, "int"))
+
+
+def _bcast(ex, vols, i, n):
+    """element i of the volumes after numpy-style broadcasting of a singleton"""
+    ln = ops.seq_len(vols)
+    if isinstance(ln, int):
+        return ops.seq_get(ex, vols, 0) if ln == 1 else ops.seq_get(ex, vols, i)
+    if entails(ex, ln == 1):
+        return ops.seq_get(ex, vols, 0)
+    if entails(ex, ln != 1):
+        return ops.seq_get(ex, vols, i)
+    return ops.ite(ex, ln == 1, ops.seq_get(ex, vols, 0), ops.seq_get(ex, vols, i))
+
+
+def entails(ex, cond):
+    """does the current path condition entail cond?  (used only to pick a canonical form of a term)"""
+    s = ex.p.solver
+    s.push()
+    s.add(z3.Not(cond))
+    r = s.check()
+    s.pop()
+    return r == z3.unsat
+
+
+@spec
+def contrib_upto(ex, L, wells, vols, k):
+    wells, vols = colmajor(ex, wells), colmajor(ex, vols)
+    n = ops.seq_len(wells)
+    if isinstance(k, int) and wells.is_concrete_len():
+        items = wells.concrete_items()[:k]
+
+        def at(r, c):
+            tot = ops.FloatQ(0)
+            for i, w in enumerate(items):
+                v = _bcast(ex, vols, i, n)
+                tot = ops.binop(ex, "+", tot, ops.ite(ex, z3.simplify(_hit(ex, L, w, r, c)), v, ops.FloatQ(0)))
+            return tot
+
+        return ContribV(at)
+    j, r, c = z3.Int("cu_j"), z3.Int("cu_r"), z3.Int("cu_c")
+    wj = ops.seq_get(ex, wells, Sym(j, "int"))
+    vj = _bcast(ex, vols, Sym(j, "int"), n)
+    hit = z3.If(_hit(ex, L, wj, r, c), term(vj, "real"), z3.RealVal(0))
+    key = "contrib:" + hit.sexpr()
+    reg = ex.p.ghost.setdefault("contrib", {})
+    if key not in reg:
+        CU = z3.Function(f"contrib{len(reg)}", z3.IntSort(), z3.IntSort(), z3.IntSort(), z3.RealSort())
+        ex.p.assume(z3.ForAll([r, c], CU(0, r, c) == 0))
+        reg[key] = (CU, hit, (j, r, c))
+    CU, hit, (j, r, c) = reg[key]
+    kt = term(k, "int")
+    return ContribV(lambda rr, cc: Sym(CU(kt, term(rr, "int"), term(cc, "int")), "real"))
+
+
+@spec
+def contrib_unfold(ex, L, wells, vols, k):
+    """instance at k of the recursive definition: contrib(k+1)(r,c) == contrib(k)(r,c) + [well_k at (r,c)] * volume_k"""
+    wells, vols = colmajor(ex, wells), colmajor(ex, vols)
+    if isinstance(k, int) and wells.is_concrete_len():
+        return True
+    contrib_upto(ex, L, wells, vols, k)
+    j, r, c = z3.Int("cu_j"), z3.Int("cu_r"), z3.Int("cu_c")
+    n = ops.seq_len(wells)
+    wj = ops.seq_get(ex, wells, Sym(j, "int"))
+    vj = _bcast(ex, vols, Sym(j, "int"), n)
+    hit = z3.If(_hit(ex, L, wj, r, c), term(vj, "real"), z3.RealVal(0))
+    CU, hit, (j, r, c) = ex.p.ghost["contrib"]["contrib:" + hit.sexpr()]
+    kt = term(k, "int")
+    ex.p.assume(z3.ForAll([r, c], z3.Implies(kt >= 0, CU(kt + 1, r, c) == CU(kt, r, c) + z3.substitute(hit, (j, kt)))))
+    return True
+
+
+@spec
+def contrib(ex, L, wells, vols):
+    """the total contribution of all (well, volume) pairs"""
+    w = colmajor(ex, wells)
+    n = ops.seq_len(w)
+    return contrib_upto(ex, L, wells, vols, n if isinstance(n, int) else Sym(n, "int"))
+
+
+@spec
+def vol_minus(ex, arr, cv):
+    src = arr.copy()
+    return Arr2V(src.rows, src.cols, lambda r, c: ops.binop(ex, "-", src.fn(r, c), cv.at(r, c)), "float")
+
+
+@spec
+def vol_plus(ex, arr, cv):
+    src = arr.copy()
+    return Arr2V(src.rows, src.cols, lambda r, c: ops.binop(ex, "+", src.fn(r, c), cv.at(r, c)), "float")
+
+
+@spec
+def loop_index(ex):
+    """index of the iteration of the innermost cut loop on this path (ghost)"""
+    ks = ex.p.ghost.get("loop_k", [])
+    if not ks:
+        raise Unsupported("loop_index(): not inside a cut loop")
+    return ks[-1]
+
+
+@spec
+def in_loop(ex):
+    return bool(ex.p.ghost.get("loop_k"))
+
+
+@spec
+def fields_unchanged(ex, obj, old, except_):
+    """every field of obj other than the listed ones is the very same value as at entry"""
+    skip = set(except_.concrete_items())
+    for k, v in obj.fields.items():
+        if k in skip or k.startswith("__"):
+            continue
+        o = old.fields.get(k)
+        if _struct_same(v, o):
+            continue
+        same_ = (v is o) or (not isinstance(v, (SeqV, Arr2V)) and type(v).__name__ not in ("MapV", "Obj") and _cheap_eq(ex, v, o))
+        if not same_:
+            if isinstance(v, (SeqV, Arr2V)) or type(v).__name__ in ("MapV",):
+                # snapshots are copies: compare content
+                from .contract import value_equal
+
+                try:
+                    e = value_equal(ex, v, o)
+                except Unsupported:
+                    return False
+                if e is True:
+                    continue
+                if e is False:
+                    return False
+                ex.p.ghost.setdefault("frame_terms", []).append(e)
+                continue
+            return False
+    extra = ex.p.ghost.pop("frame_terms", [])
+    if extra:
+        return mk_bool(z3.And(*[zbool(unwrap_bool(e)) for e in extra]))
+    return True
+
+
+def _cheap_eq(ex, a, b):
+    try:
+        e = ops.equals(ex, a, b)
+    except Unsupported:
+        return False
+    return e is True
+
+
+@spec
+def vol_at(ex, L, w):
+    """tracked volume of the real well that id w addresses"""
+    idx = _real_index(ex, L, w).concrete_items()
+    return L.fields["_volumes"].fn(_plain(idx[0]), _plain(idx[1]))
+
+
+def _plain(x):
+    return x.t if isinstance(x, Sym) else x
+
+
+@spec
+def arr_at(ex, arr, L, w):
+    idx = _real_index(ex, L, w).concrete_items()
+    return arr.fn(_plain(idx[0]), _plain(idx[1]))
+
+
+@spec
+def contrib_at(ex, cv, L, w):
+    idx = _real_index(ex, L, w).concrete_items()
+    return cv.at(idx[0], idx[1])
+
+
+@spec
+def bcast(ex, vols, i, wells):
+    """volume paired with well i: element-wise, a single volume applies to every well"""
+    v = colmajor(ex, vols)
+    return _bcast(ex, v, i, ops.seq_len(colmajor(ex, wells)))
+
+
+@spec
+def not_aliased(ex, a, b):
+    return a is not b
+
+
+@spec
+def last(ex, s):
+    n = ops.seq_len(s)
+    return ops.seq_get(ex, s, -1)
+
+
+def _struct_same(v, o):
+    """cheap structural identity of a value and its entry snapshot (no solver)"""
+    from .values import Lit, MapV
+
+    if v is o:
+        return True
+    if isinstance(v, MapV) and isinstance(o, MapV):
+        if v.items is None and o.items is None:
+            return v.dom is o.dom and v.fn is o.fn
+        return False
+    if isinstance(v, SeqV) and isinstance(o, SeqV) and v.kind == o.kind and len(v.segs) == len(o.segs):
+        for a, b in zip(v.segs, o.segs):
+            if isinstance(a, Lit) and isinstance(b, Lit):
+                if len(a.items) != len(b.items) or any(not _struct_same(x, y) and x is not y and not (type(x) in (int, str, bool, type(None)) and x == y) for x, y in zip(a.items, b.items)):
+                    return False
+            elif isinstance(a, Blk) and isinstance(b, Blk):
+                if a.fn is not b.fn or not (a.n is b.n or (isinstance(a.n, int) and a.n == b.n) or (z3.is_expr(a.n) and z3.is_expr(b.n) and z3.eq(a.n, b.n))):
+                    return False
+            else:
+                return False
+        return True
+    if isinstance(v, Arr2V) and isinstance(o, Arr2V):
+        return v.fn is o.fn
+    if isinstance(v, Sym) and isinstance(o, Sym):
+        return z3.eq(v.t, o.t)
+    if type(v) in (int, str, bool, float, type(None)) and type(o) == type(v):
+        return v == o or (v != v and o != o)
+    return False
